@@ -1,14 +1,14 @@
 #!/bin/bash
 # seeded-run.sh [<id> ...] : evaluates every seeded change under /verif/seeded (or the named ones) with
-# bin/mutant-eval.sh against the checks listed in its meta.json ("detected_by_quick_checks"), six at a time,
+# bin/mutant-eval.sh against the checks listed in its meta.json ("detected_by_quick_checks"), four at a time,
 # and prints one line per (change, check). Development aid; nothing is applied to /repo.
 cd /verif/seeded || exit 2
-ids="$@"; [ -z "$ids" ] && ids=$(ls)
+ids="$@"; [ -z "$ids" ] && ids=$(ls -d */ | tr -d /)
 mkdir -p /tmp/seeded-logs
 for id in $ids; do
   checks=$(python3 -c "import json;print(' '.join(json.load(open('/verif/seeded/$id/meta.json'))['detected_by_quick_checks']))")
   echo "$id $checks"
-done | xargs -P 6 -L1 sh -c 'id=$0; /verif/bin/mutant-eval.sh /verif/seeded/$id "$@" > /tmp/seeded-logs/$id.log 2>&1'
+done | xargs -P 4 -L1 sh -c 'id=$0; /verif/bin/mutant-eval.sh /verif/seeded/$id "$@" > /tmp/seeded-logs/$id.log 2>&1'
 for id in $ids; do
   grep -h "DETECTED\|missed\|rejected\|PATCH-DOES-NOT-APPLY" /tmp/seeded-logs/$id.log | sed "s/^/$id  /" | cut -c1-160
 done
